@@ -11,6 +11,7 @@ import (
 	"go/token"
 	"go/types"
 	"math/big"
+	"os"
 	"sort"
 	"strings"
 
@@ -43,15 +44,15 @@ type deferred struct {
 }
 
 type frame struct {
-	fn       *ssa.Function
-	locals   map[ssa.Value]Value
-	defers   []deferred
-	block    *ssa.BasicBlock
-	prev     *ssa.BasicBlock
-	symCount map[ssa.Instruction]int
-	result   Value
+	fn        *ssa.Function
+	locals    map[ssa.Value]Value
+	defers    []deferred
+	block     *ssa.BasicBlock
+	prev      *ssa.BasicBlock
+	symCount  map[ssa.Instruction]int
+	result    Value
 	panicking *goPanic
-	curInstr ssa.Instruction
+	curInstr  ssa.Instruction
 }
 
 type inputRec struct {
@@ -118,37 +119,39 @@ type Exec struct {
 	pcond     []*Term
 	known     map[int]bool
 
-	objSeq    int
-	globals   map[*ssa.Global]*Obj
-	inInit    bool
-	initObjs  []*Obj
-	initSnap  map[*Obj]Value
-	dirty     []*Obj
-	initDone  map[*ssa.Package]bool
+	objSeq       int
+	globals      map[*ssa.Global]*Obj
+	inInit       bool
+	initObjs     []*Obj
+	initSnap     map[*Obj]Value
+	dirty        []*Obj
+	initDone     map[*ssa.Package]bool
 	sharedWrites map[string]string
 
-	varSeq  map[string]int
-	inputs  []inputRec
-	ufs     []ufRec
-	stack   []*frame
-	steps   int
-	reached map[string]bool
-	obs     []Observation
+	varSeq      map[string]int
+	inputs      []inputRec
+	ufs         []ufRec
+	stack       []*frame
+	steps       int
+	reached     map[string]bool
+	obs         []Observation
 	knownRegion string
-	strCache map[string]*Term
+	strCache    map[string]*Term
 
 	workAlloc, workCopy *Term
 
 	// accumulated over all paths
-	violations []Violation
-	paths      []PathResult
-	nInstr     int
-	allReached map[string]int
-	vioSeen    map[string]bool
-	recoverSlot **goPanic
-	guessCache  map[string]*Term
-	nAsserts    int
-	funcsSeen   map[string]bool
+	violations   []Violation
+	paths        []PathResult
+	nInstr       int
+	allReached   map[string]int
+	vioSeen      map[string]bool
+	recoverSlot  **goPanic
+	guessCache   map[string]*Term
+	nAsserts     int
+	strictInit   map[*ssa.Package]bool
+	initSkips    []string
+	funcsSeen    map[string]bool
 	atomicAccess map[*Obj]bool
 }
 
@@ -390,7 +393,7 @@ func (e *Exec) reportViolation(kind, tag, site string, negCond *Term) {
 		if in.term != nil {
 			lv := model[in.term]
 			if lv != nil {
-				fix = append(fix, e.tb.Eq(in.term, e.tb.BV(lv, in.term.w)))
+				fix = append(fix, e.tb.Eq(in.term, e.tb.Const(lv, in.term.w)))
 				if lv.IsUint64() && int(lv.Uint64()) < n {
 					n = int(lv.Uint64())
 				}
@@ -407,7 +410,7 @@ func (e *Exec) reportViolation(kind, tag, site string, negCond *Term) {
 	for _, in := range e.inputs {
 		if in.term != nil && in.arr == nil {
 			if mv := model[in.term]; mv != nil {
-				fix = append(fix, e.tb.Eq(in.term, e.tb.BV(mv, in.term.w)))
+				fix = append(fix, e.tb.Eq(in.term, e.tb.Const(mv, in.term.w)))
 			}
 		}
 	}
@@ -421,6 +424,9 @@ func (e *Exec) reportViolation(kind, tag, site string, negCond *Term) {
 		v2, model2 = e.sol.CheckModel(want2, fix...)
 		if v2 != Sat {
 			model2 = nil
+			if slowLog {
+				fmt.Fprintf(os.Stderr, "model phase 2 for %s: %v\n", tag, v2)
+			}
 		}
 	}
 	get := func(t *Term) *big.Int {
